@@ -16,6 +16,8 @@ def stepC38 : List String → String
             then "fresh" else "reused"
         | none => "bad-op"
       else if op = "keystore" then "unpredictable"
+      -- no entropy, no secret: with the OS source failing a producer can only report the failure
+      else if op = "noentropy" then "error"
       else "bad-op"
   | _ => "bad-op"
 
